@@ -213,6 +213,9 @@ def main():
             if n % 25 == 0:
                 print(n, flush=True)
     print('done', flush=True)
+    import glob
+    for d in glob.glob(os.path.join(VERIF, '.work', 'scratch', 'sweep*')) + glob.glob(os.path.join(VERIF, '.work', 'scratch', 'tgt-sweep*')):
+        shutil.rmtree(d, ignore_errors=True)     # scratch copies and their build output
 
 
 if __name__ == '__main__':
